@@ -386,6 +386,34 @@ fn block_cases(w: &World, p: &mut Prng, key: &mut u32, prev: &grin_core::core::B
 			v.push(("reward_split_with_negative_coinbase_output", b));
 		}
 	}
+	// the coinbase output claims REWARD+fees+V (valid proof) and the coinbase KERNEL's excess carries the V: excess =
+	// output - (REWARD+fees)*H = r*G + V*H, under the signature of the honest kernel or a random one. verify_coinbase
+	// compares curve points and balances, both sum checks balance; only the kernel signature (an excess with a value
+	// component has no signature under it) stands between this block and V grin from nothing
+	for junk in [false, true] {
+		let secp = w.kc.secp();
+		let vmint = (1 + p.below(1_000_000)) * consensus::GRIN_BASE;
+		let k1 = w.key(*key);
+		*key += 1;
+		let honest_value = consensus::reward(fees);
+		let out1 = {
+			let o = w.output(honest_value + vmint, &k1);
+			Output::new(OutputFeatures::Coinbase, o.commitment(), o.proof())
+		};
+		let excess = secp.commit_sum(vec![out1.commitment()], vec![secp.commit_value(honest_value).unwrap()]).unwrap();
+		let mut kern2 = TxKernel::with_features(KernelFeatures::Coinbase);
+		kern2.excess = excess;
+		kern2.excess_sig = if junk {
+			let mut sb = [0u8; 64];
+			p.fill(&mut sb);
+			grin_util::secp::Signature::from_raw_data(&sb).unwrap_or(kern.excess_sig)
+		} else {
+			kern.excess_sig
+		};
+		if let Ok(b) = Block::from_reward(prev, &txv, out1, kern2, grin_core::pow::Difficulty::from_num(5)) {
+			v.push((if junk { "coinbase_kernel_excess_carries_created_value_random_signature" } else { "coinbase_kernel_excess_carries_created_value_foreign_signature" }, b));
+		}
+	}
 	// total kernel offset in the header changed
 	{
 		let mut b = valid.clone();
@@ -1282,6 +1310,7 @@ fn main() {
 		"coinbase_overclaim_with_compensating_burn", "coinbase_overclaim", "coinbase_flag_removed_from_output",
 		"coinbase_flag_removed_from_kernel", "second_subsidy_claimed", "header_total_offset_changed",
 		"coinbase_output_with_foreign_range_proof", "reward_split_with_negative_coinbase_output",
+		"coinbase_kernel_excess_carries_created_value_random_signature", "coinbase_kernel_excess_carries_created_value_foreign_signature",
 	] {
 		run.require(&format!("block_corruption.{}", op), run.counter(&format!("block_corruption.{}", op)), run.tier.pick(20, 200));
 	}
